@@ -5,7 +5,7 @@ feature configurations; demo fails with the change and passes without it) and on
 /verif/seeded/<ID>-<A|B>/{patch.diff, demo.*, meta.json}. The scratch worktree is removed afterwards."""
 import json, os, re, shutil, subprocess, sys
 ROOT = os.path.dirname(os.path.dirname(os.path.abspath(__file__)))
-WT = "/tmp/seedverify"
+WT = os.environ.get("SEEDVERIFY_WT", "/tmp/seedverify")
 
 
 def sh(cmd, cwd=None, timeout=1800):
@@ -41,7 +41,7 @@ def main():
                 print(pid, "no output dir")
                 continue
             notes = open(os.path.join(src, "notes.md")).read() if os.path.exists(os.path.join(src, "notes.md")) else ""
-            for which in ("ABC" if rnd else "AB"):
+            for which in ("ABCD" if rnd == "2" else "AB"):
                 patch = os.path.join(src, f"{which}.patch")
                 demos = [f for f in os.listdir(src) if f.lower().startswith(f"demo_{which.lower()}")]
                 if not os.path.exists(patch) or not demos:
@@ -69,6 +69,12 @@ def main():
                     cmd = env_off + f"cargo test --offline --features devices --test {name} 2>&1 | tail -30"
                     _, d1 = sh(cmd, cwd=WT)
                     demo_fails_with = "test result: FAILED" in d1 or "panicked" in d1 or "error: test failed" in d1
+                    if not demo_fails_with:
+                        # a change that only shows in an optimized build (debug_assert!, cfg(debug_assertions))
+                        cmd = env_off + f"cargo test --offline --release --features devices,dim_check_release --test {name} 2>&1 | tail -30"
+                        _, d1 = sh(cmd, cwd=WT)
+                        demo_fails_with = "test result: FAILED" in d1 or "panicked" in d1 or "error: test failed" in d1
+                        log["demo_profile"] = "--release --features devices,dim_check_release"
                     sh("git checkout -- src", cwd=WT)
                     _, d2 = sh(cmd, cwd=WT)
                     demo_passes_without = "test result: ok" in d2 and "test result: FAILED" not in d2
@@ -77,7 +83,7 @@ def main():
                     shutil.copy(demo, os.path.join(WT, os.path.basename(demo)))
                     for c in companions:
                         shutil.copy(c, os.path.join(WT, os.path.basename(c)))
-                    cmd = f"bash {os.path.basename(demo)} > demo.log 2>&1; echo DEMO_RC=$?; tail -30 demo.log; rm -f demo.log"
+                    cmd = f"bash {os.path.basename(demo)} . > demo.log 2>&1; echo DEMO_RC=$?; tail -30 demo.log; rm -f demo.log"
                     _, d1 = sh(cmd, cwd=WT)
                     demo_fails_with = "DEMO_RC=0" not in d1
                     sh("git checkout -- src", cwd=WT)
